@@ -262,3 +262,16 @@ def layout_cases(draw):
     for _ in range(2):
         inputs.append(("random-long", draw(st.binary(min_size=28, max_size=36)), 0))
     return {"fam": fam, "cg": cg, "trees": trees, "inputs": inputs}
+
+
+def has_optdep_dynamic(fam):
+    """is there a run-time selected Int whose byte order would depend on class options (no explicit endianness, >1 byte)?
+    Which options such a field sees is not documented: checks that compare DECODED VALUES or ENCODED BYTES with the model must
+    not take sides there (round-trip relations are fine)"""
+    for p in fam["pkts"]:
+        for f in ir.all_fields(p):
+            if f["k"] == "refsel":
+                for _, o in f["options"]:
+                    if o[0] == "field" and o[1]["k"] == "int" and o[1]["n"] > 1 and o[1].get("endian") is None:
+                        return True
+    return False
